@@ -3,8 +3,8 @@ import PqModel.Props.C14
 
 /-! # C14 — the site table extracted from writer.go satisfies the hypothesis of `no_silent_loss`
 
-`Generated/Facts.lean` is rewritten by `tools/factgen` (family `writesites`) from the current
-source on every run. A NEW call on the byte path whose error does not reach the return of its
+`Generated/Facts.lean` is rewritten by `tools/factgen` (families `writesites`, `writesites_thrift`) from
+the current source on every run. A NEW call on the byte path whose error does not reach the return of its
 function makes `sites_propagate` fail to build. -/
 namespace PqModel.Props.FactsCheckC14
 open PqModel.Generated PqModel.IoFault
@@ -84,6 +84,47 @@ theorem no_silent_loss_extracted (f : Fault) (k : Nat) (hk : f.k = some k) (hone
   | inl h =>
     obtain ⟨s, hs, hn⟩ := h
     exact Or.inl (by rw [← hn]; exact siteTable_sound s hs)
+
+/-! ## The thrift encoder (family `writesites_thrift`)
+
+With `WriteBufferSize(0)` the thrift encoder of the footer and of the page index writes byte-wise
+straight to the destination, so every write of compact.go / binary.go / encode.go is a site of the
+byte path (seeded change C14-3b dropped the error of one of them). -/
+
+/-- writer-side thrift sites whose error does not flow to the return at the AST level (none on the
+unchanged tree) -/
+def allowedThrift : List String := []
+
+/-- every call of an error-returning function or io leaf on the writer side of encoding/thrift
+hands its error to its caller -/
+theorem thrift_write_sites_propagate :
+    thriftWriteSites.all (fun s => s.propagates || s.name ∈ allowedThrift) = true := by decide
+
+/-- the table is not empty and holds the sites the long-form list header is written at -/
+theorem thrift_sites_known :
+    (thriftWriteSites.any (fun s => s.name == "compact.go:compactWriter.WriteList:w.binary.writeByte#2")) = true ∧
+    (thriftWriteSites.any (fun s => s.name == "compact.go:compactWriter.WriteList:w.writeUvarint#1")) = true ∧
+    30 ≤ thriftWriteSites.length := by decide
+
+/-- discarded errors of the io leaves on the read path of file.go, each with the reason why no
+failure of the source can be lost there -/
+def allowedReadDrops : List String := [
+  -- `Seek` of an `io.SectionReader`: fails only on an invalid whence / a negative position, never
+  -- through the underlying io.ReaderAt (no I/O).
+  "file.go:OpenFile:section.Seek#1",
+  "file.go:OpenFile:section.Seek#2",
+  "file.go:FileColumnChunk.readBloomFilter:section.Seek#1",
+  -- `f.rbuf.Discard(…)` when an already loaded dictionary page is skipped: a failing source leaves
+  -- the stream inside the dictionary page and the next page header decode reports an error (every
+  -- fault of the `readat` sweep with history `dictfirst-pages` is reported), but the I/O error
+  -- itself is lost; repair proposed (`fix: … Discard`). The entry is tolerated, not required:
+  -- there is no tightness theorem for this list.
+  "file.go:FilePages.readPageInSequence:f.rbuf.Discard#1"
+]
+
+/-- no other io leaf of file.go has its error discarded -/
+theorem file_read_errors_not_dropped :
+    fileReadDrops.all (fun s => s.name ∈ allowedReadDrops) = true := by decide
 
 example : (runCalls (faultSink ⟨some 5, true, true, false⟩) siteTable (initW false (some 4))
     [[Op.store 0 [1, 2, 3]],
